@@ -159,6 +159,8 @@ func c18Snapshots(k int) map[string]*config.ClusterResources {
 			Status: corev1.NodeStatus{Addresses: []corev1.NodeAddress{{Type: corev1.NodeInternalIP, Address: fmt.Sprintf("172.16.0.%d", i+1)}}}})
 		rich.Namespaces = append(rich.Namespaces, corev1.Namespace{ObjectMeta: metav1.ObjectMeta{Name: "ns-" + n, Labels: map[string]string{"team": []string{"x", "y"}[i%2]}}})
 	}
+	rich.BGPExtras = corev1.ConfigMap{ObjectMeta: metav1.ObjectMeta{Name: "bgpextras", Namespace: "metallb-system"},
+		Data: map[string]string{"extras": "! base extras", "zz-more": "! z", "aa-more": "! a", "mm": "! m"}}
 	res["rich"] = rich
 
 	// every advertisement selects all pools / all nodes: exercises the "all pools" map loops
@@ -251,6 +253,16 @@ func c18Snapshots(k int) map[string]*config.ClusterResources {
 	nodeip := c18Apply(rich, nil)
 	nodeip.Nodes[k-1].Status.Addresses[0].Address = "10.0.1.7"
 	res["rej-node-ip-in-pool"] = &nodeip
+
+	// frr validation per VRF: two peers of one VRF with different local ASNs, other VRFs around them
+	vrf := c18Apply(rich, nil)
+	for i := range vrf.Peers {
+		vrf.Peers[i].Spec.VRFName = "blue"
+		vrf.Peers[i].Spec.BFDProfile = ""
+	}
+	vrf.Peers[0].Spec.VRFName = "red"
+	vrf.Peers[k-1].Spec.MyASN = 64999
+	res["rej-frr-myasn-differs-inside-second-vrf"] = &vrf
 
 	asn := c18Apply(rich, nil) // frr validation: myASN must be equal
 	asn.Peers[k-1].Spec.MyASN = 64999
@@ -388,6 +400,16 @@ func TestVerif_C18(t *testing.T) {
 			verdict = "rejected"
 		}
 		res.Outcome(c.Snapshot + "/" + c.Validate + ":" + verdict)
+		if ch == nil && len(c.MapOrder) == 0 && len(c.Perms) > 0 {
+			// the admission webhooks hand the lists to config.For as they were listed (no sorting in front of it): the
+			// verdict must be the same there
+			_, werr := config.For(in, c18Validator(c.Validate))
+			res.Count("evaluations", 1)
+			if (werr == nil) != (rf.err == nil) {
+				res.Violate("config-differs cause=listing-order diff=verdict path=config.For-without-sorting",
+					fmt.Sprintf("snapshot %s validator %s perms %v: config.For on the lists as listed: err=%v; reference (sorted): err=%v", c.Snapshot, c.Validate, c.Perms, werr, rf.err), c)
+			}
+		}
 		d := c18Diff(rf.cfg, cfg, rf.err, err)
 		if d == "" {
 			return
